@@ -34,6 +34,7 @@ type world struct {
 	args     []string // arguments received by User.calc, rendered
 	introspection bool // introspection enabled for the operation
 	onCall   func(n int) // called at the n-th resolver call (cancellation points)
+	cancels   bool    // the harness cancels the request context itself (C05): a cancelled context is not a fault then
 	subEvents []*User // the events the subscription resolver emitted
 	onlyIntercept bool // deviations are spent on interceptor outcomes only
 	intercept bool // the field interceptor may fail (C04): one more fault point around every field
@@ -322,6 +323,13 @@ func worldPID(fc *graphql.FieldContext) string {
 }
 
 func (w *world) fieldMiddleware(ctx context.Context, next graphql.Resolver) (any, error) {
+	if !w.cancels {
+		// user code honours its context (data loaders, database calls do): nothing but the
+		// end of the request may cancel it - not, for instance, the failure of a sibling
+		if err := ctx.Err(); err != nil {
+			return nil, err
+		}
+	}
 	if w.intercept {
 		fc := graphql.GetFieldContext(ctx)
 		switch w.Intercept(fc.Object, worldPID(fc), fc.Field.Name) {
